@@ -1,7 +1,159 @@
-//! C09 — stub (monitor not built yet)
-use crate::run::{Ctx, Report, Stats};
-pub fn run(_ctx: &Ctx) -> Report {
-    let mut r = Report::new(Stats::default(), "not built");
-    r.inconclusive.push("monitor-not-built".into());
-    r
+//! C09 — iterative solvers converge on well-posed systems, never corrupt a correct x.
+use crate::fl::{self, U};
+use crate::mon::c08::{bits, norm2, Solver, Sys, SOLVERS};
+use crate::mon::common::*;
+use crate::rng::Rng;
+use crate::run::{catch, par_run, Ctx, Outcome, Report, Stats};
+use ohsl::Vector;
+
+const TAG: u64 = 0xC09;
+const MARGINS: [f64; 4] = [0.02, 0.1, 0.5, 2.0];
+/// QMR's look-ahead-free recurrence has an attainable-accuracy floor of a few 1e-12 (DESIGN 5/C09)
+const QMR_MIN_TOL: f64 = 1e-8;
+
+fn iter_cap(n: usize) -> usize { 10 * n + 100 }
+
+/// strictly diagonally dominant system; symmetric => positive diagonal (SPD by Gershgorin)
+fn gen_dominant(rng: &mut Rng, n: usize, symmetric: bool, margin: f64, integer: bool) -> Sys {
+    let p = if n <= 3 { 0.8 } else { rng.range(1.0, 5.0) / n as f64 };
+    let mut d = vec![vec![0.0; n]; n];
+    for i in 0..n { for j in 0..n { if i != j && (!symmetric || i < j) && rng.chance(p) {
+        let v = if integer { rng.nzint(4) as f64 } else { rng.sym() };
+        d[i][j] = v; if symmetric { d[j][i] = v; }
+    } } }
+    let scale = if integer { 1.0 } else { *rng.pick(&[1.0, 1e3, 1e-3]) };
+    for i in 0..n {
+        let s: f64 = d[i].iter().map(|v| v.abs()).sum();
+        let mut dii = if integer { (s * (1.0 + margin)).floor() + 1.0 } else { s * (1.0 + margin) + margin * 0.25 + 1e-3 };
+        if !symmetric && rng.bool() { dii = -dii; }
+        d[i][i] = dii;
+    }
+    let mut trip = vec![];
+    for i in 0..n { for j in 0..n { if d[i][j] != 0.0 { trip.push((i, j, d[i][j] * scale)); } } }
+    Sys { n, trip, class: if symmetric { "spd-dominant" } else { "row-dominant-nonsymmetric" } }
+}
+
+fn applicable(sv: Solver, symmetric: bool) -> bool { symmetric || sv != Solver::Cg }
+
+fn direct_solution(d: &Vec<Vec<f64>>, b: &[f64]) -> Option<Vec<f64>> {
+    let mut m = mat_f64(d);
+    catch(|| m.solve_basic(&Vector::create(b.to_vec()))).ok().map(|v| v.vec).filter(|v| fl::all_finite(v))
+}
+
+fn frob(d: &Vec<Vec<f64>>) -> f64 { d.iter().flatten().map(|v| v * v).sum::<f64>().sqrt() }
+
+fn convergence_case(st: &mut Stats, rng: &mut Rng) {
+    let n = if rng.chance(0.2) { rng.usize(1, 4) } else { rng.usize(1, 60) };
+    let symmetric = rng.bool();
+    let margin = *rng.pick(&MARGINS);
+    let sys = gen_dominant(rng, n, symmetric, margin, false);
+    let d = sys.dense();
+    let a = match catch(|| sys.sparse(rng)) { Outcome::Ok(a) => a, _ => return };
+    let inv = match cp_inverse_real(&d) { Some(i) => i, None => { st.count("skipped:certificate-failed"); return; } };
+    let kf = frob(&d) * frob(&inv);
+    let mk_rhs = |rng: &mut Rng| -> (Vec<f64>, Vec<f64>) {
+        let sc = *rng.pick(&[1.0, 1e8, 1e-8, 1e3]);
+        let xs: Vec<f64> = (0..n).map(|_| rng.sym() * sc).collect();
+        let b: Vec<f64> = (0..n).map(|i| (0..n).map(|j| d[i][j] * xs[j]).sum()).collect();
+        (xs, b)
+    };
+    let (xs, b) = mk_rhs(rng);
+    // initial guesses: zero, random at the scale of the solution, or a perturbed solution. (A guess that is
+    // 1e8 times larger than the solution asks for a residual reduction beyond u*||A||*||x0||/||b||, which no
+    // floating-point iteration can deliver; such requests are outside "well-posed" and are not generated.)
+    let xscale = norm2(&xs) / (n as f64).sqrt();
+    let x0: Vec<f64> = match rng.below(3) { 0 => vec![0.0; n], 1 => (0..n).map(|_| rng.sym() * xscale).collect(), _ => xs.iter().map(|v| v * (1.0 + 0.1 * rng.sym())).collect() };
+    let xd = match direct_solution(&d, &b) { Some(x) => x, None => { st.count("skipped:direct-solve-failed"); return; } };
+    let tol = rng.logpos(1e-12, 1e-3);
+    let bv = Vector::create(b.clone());
+    for sv in SOLVERS {
+        if !applicable(sv, symmetric) { continue; }
+        if sv == Solver::Qmr && tol < QMR_MIN_TOL { st.count("not-demanded:qmr-below-floor"); continue; }
+        st.next_case();
+        let desc = || format!("solver={} class={} n={} margin={} kappa_F={:e} tol={:e} max_iter={} b={:?} x0={:?} triplets={:?}", sv.name(), sys.class, n, margin, kf, tol, iter_cap(n), b, x0, sys.trip);
+        let mut x = Vector::create(x0.clone());
+        let out = catch(|| sv.call(&a, &bv, &mut x, iter_cap(n), tol));
+        st.eval();
+        match out {
+            Outcome::Ok(Ok(it)) => {
+                st.max(&format!("iterations_over_n_plus_10:{}", sv.name()), it as f64 / (n as f64 + 10.0));
+                if !fl::all_finite(&x.vec) { st.violation(&format!("C09:{}:ok-nonfinite", sv.name()), format!("x={:?}; {}", x.vec, desc())); continue; }
+                // agreement with the direct dense solution
+                let err = norm2(&x.vec.iter().zip(&xd).map(|(p, q)| p - q).collect::<Vec<_>>());
+                let drift = crate::mon::c08::drift_units(sv) * U * (it as f64 + 1.0) * (sys.frob() * norm2(&x.vec).max(norm2(&x0)) + norm2(&b)) / norm2(&b).max(f64::MIN_POSITIVE);
+                let bound = 4.0 * (kf * (tol + drift) + 8.0 * n as f64 * kf * U) * norm2(&xd);
+                st.max(&format!("direct_agreement_over_bound:{}", sv.name()), if bound > 0.0 { err / bound } else { 0.0 });
+                if !(err <= bound) { st.violation(&format!("C09:{}:disagrees-with-direct", sv.name()), format!("||x-x_direct||={:e} > {:e}; x={:?} x_direct={:?}; {}", err, bound, x.vec, xd, desc())); }
+                st.count(&format!("converged:{}", sv.name()));
+                if n >= 2 { let mut h = hash_str(sv.name()); for t in sys.trip.iter().take(8) { h = hmix(h, t.2.to_bits()); } st.nontrivial(hmix(h, tol.to_bits())); }
+            }
+            Outcome::Ok(Err(e)) => {
+                // breakdown guard: reproduce on fresh right-hand sides of the same matrix
+                let mut fails = 0;
+                for _ in 0..3 {
+                    let (_x2, b2) = mk_rhs(rng);
+                    let mut xx = Vector::create(vec![0.0; n]);
+                    if !matches!(catch(|| sv.call(&a, &Vector::create(b2.clone()), &mut xx, iter_cap(n), tol)), Outcome::Ok(Ok(_))) { fails += 1; }
+                }
+                if fails >= 2 { st.violation(&format!("C09:{}:no-convergence", sv.name()), format!("Err({:e}) within {} iterations and {} of 3 fresh right-hand sides fail too; {}", e, iter_cap(n), fails, desc())); }
+                else { st.count(&format!("isolated-breakdown:{}", sv.name())); st.set_insert(&format!("isolated-breakdown-examples:{}", sv.name()), format!("n={} margin={} tol={:.1e} err={:.1e} symmetric={} x0kind_norm={:.1e} bnorm={:.1e} refails={}", n, margin, tol, e, symmetric, norm2(&x0), norm2(&b), fails)); }
+            }
+            o => st.violation(&format!("C09:{}:panic", sv.name()), format!("{}; {}", o.describe(), desc())),
+        }
+        st.sample(|| desc());
+    }
+}
+
+/// an initial guess that already solves the system, and (b=0, x0=0), are accepted as solved and x stays finite
+fn degenerate_case(st: &mut Stats, rng: &mut Rng) {
+    let n = rng.usize(1, 30);
+    let symmetric = rng.bool();
+    let mg = *rng.pick(&MARGINS); let sys = gen_dominant(rng, n, symmetric, mg, true);
+    let d = sys.dense();
+    let a = match catch(|| sys.sparse(rng)) { Outcome::Ok(a) => a, _ => return };
+    let exact_guess = rng.bool();
+    let (b, x0): (Vec<f64>, Vec<f64>) = if exact_guess {
+        let xs: Vec<f64> = (0..n).map(|_| rng.int(-9, 9) as f64).collect();
+        ((0..n).map(|i| (0..n).map(|j| d[i][j] * xs[j]).sum()).collect(), xs) // integer data: b = A*x0 exactly
+    } else { (vec![0.0; n], vec![0.0; n]) };
+    if exact_guess && b.iter().all(|v| *v == 0.0) { return; }
+    let tol = rng.logpos(1e-12, 1e-3);
+    let budget = *rng.pick(&[1usize, 5, iter_cap(n)]);
+    let bv = Vector::create(b.clone());
+    for sv in SOLVERS {
+        if !applicable(sv, symmetric) { continue; }
+        st.next_case();
+        let kind = if exact_guess { "exact-guess" } else { "zero-rhs-zero-guess" };
+        let desc = || format!("solver={} {} class={} n={} tol={:e} max_iter={} b={:?} x0={:?} triplets={:?}", sv.name(), kind, sys.class, n, tol, budget, b, x0, sys.trip);
+        let mut x = Vector::create(x0.clone());
+        let out = catch(|| sv.call(&a, &bv, &mut x, budget, tol));
+        st.eval();
+        match out {
+            Outcome::Ok(res) => {
+                if !fl::all_finite(&x.vec) { st.violation(&format!("C09:{}:{}:x-corrupted", sv.name(), kind), format!("returned {:?} and x = {:?}; {}", res, x.vec, desc())); continue; }
+                if res.is_err() { st.violation(&format!("C09:{}:{}:not-accepted", sv.name(), kind), format!("returned {:?}, x = {:?}; {}", res, x.vec, desc())); continue; }
+                let bn = norm2(&b); let bstar = if bn == 0.0 { 1.0 } else { bn };
+                let tr = crate::mon::c08::true_resid(&d, &x.vec, &b) / bstar;
+                if !(tr <= tol) { st.violation(&format!("C09:{}:{}:no-longer-a-solution", sv.name(), kind), format!("true residual {:e} > tol; x={:?}; {}", tr, x.vec, desc())); }
+                if bits(&x.vec) == bits(&x0) { st.count("degenerate:x-untouched"); }
+                st.count(&format!("degenerate:{}:{}", kind, sv.name()));
+                if n >= 2 { st.nontrivial(hmix(hash_str(kind) ^ hash_str(sv.name()), sys.trip.iter().take(8).fold(n as u64, |h, t| hmix(h, t.2.to_bits())))); }
+            }
+            o => st.violation(&format!("C09:{}:{}:panic", sv.name(), kind), format!("{}; {}", o.describe(), desc())),
+        }
+    }
+}
+
+pub fn run(ctx: &Ctx) -> Report {
+    let units = ctx.vol(8000, 200_000);
+    let stats = par_run(ctx, TAG, units, |_u, rng, st| { for _ in 0..3 { convergence_case(st, rng); } degenerate_case(st, rng); degenerate_case(st, rng); });
+    let mut rep = Report::new(stats,
+        "certified well-posed systems of order 1..60: symmetric strictly diagonally dominant with positive diagonal (SPD; all five variants) and strictly row-dominant nonsymmetric with mixed-sign diagonal (BiCG both error measures, BiCGSTAB, QMR), dominance margins {0.02,0.1,0.5,2}, global scales 1e+-3, rhs from a planted solution of scale 1, 1e3, 1e+-8, x0 zero/random/scaled, tol log-uniform 1e-12..1e-3 (QMR demanded for tol>=1e-8 only), budget 10n+100, shuffled triplets. Judged: Ok within the budget, finite x, agreement with Matrix::solve_basic within kappa_F*(tol+drift). Degenerate starts on integer data: exact initial guess (b=A*x0 exactly) and zero rhs with zero guess must be accepted (Ok), x finite and still a solution. Non-trivial: n>=2 and a judged Ok/degenerate outcome; distinct = distinct (solver,entries,tol) hashes");
+    rep.assumptions = vec![
+        "iteration cap 10n+100 (measured worst 3.4*(n+10) over 1.5 M solves)".into(),
+        "a convergence failure is reported only if at least 2 of 3 fresh right-hand sides on the same matrix fail too (isolated Lanczos breakdowns are logged, not flagged)".into(),
+        "kappa_F from a harness complete-pivoting inverse".into(),
+    ];
+    rep.min_nontrivial = 500;
+    rep
 }
